@@ -334,13 +334,9 @@ c09_harness!(c09_got_shared_relr, 4, true);
 c09_harness!(c09_got_shared_rela, 4, false);
 
 /// C01 (GOT-slot addressing): the slot addresses relocations will use are the slots the writer filled.
-#[kani::proof]
-#[kani::unwind(8)]
-#[kani::stub(std::fmt::format, c23_stub_format)]
-#[kani::stub(TableWriter::process_got_tls_offset, c23_stub_got_tls_offset)]
-#[kani::stub(crate::layout::compute_allocations, c23_stub_compute_allocations)]
-fn c01_tls_got_slots_agree_with_writer() {
-    let kind = c23_output_kind();
+/// One harness per output kind (with the kind symbolic CBMC ran out of 22 GB).
+fn c01_tls_got_slots_agree_with_writer<const KIND: u8>() {
+    let kind = c23_kind(KIND);
     let flags = c23_flags(kind);
     kani::assume(flags.is_tls());
     let relr: bool = kani::any();
@@ -391,3 +387,19 @@ fn c01_tls_got_slots_agree_with_writer() {
         }
     }
 }
+
+macro_rules! c01_tls_harness {
+    ($name:ident, $k:expr) => {
+        #[kani::proof]
+        #[kani::unwind(8)]
+        #[kani::stub(std::fmt::format, c23_stub_format)]
+        #[kani::stub(TableWriter::process_got_tls_offset, c23_stub_got_tls_offset)]
+        #[kani::stub(crate::layout::compute_allocations, c23_stub_compute_allocations)]
+        fn $name() {
+            c01_tls_got_slots_agree_with_writer::<$k>();
+        }
+    };
+}
+c01_tls_harness!(c01_tls_got_slots_dyn_nonreloc, 2);
+c01_tls_harness!(c01_tls_got_slots_dyn_pie, 3);
+c01_tls_harness!(c01_tls_got_slots_shared, 4);
